@@ -18,9 +18,15 @@ PROP_MODULES = ["WV.Props.ClientSkel", "WV.Props.C18", "WV.Props.C18obs"]
 # translation validation of the control machines' method bodies against WV.Client (tools/extract.py::extract_pyir ->
 # WV/Gen/PyIR.lean; agents/deepPyIR2_integration.md): part of the check as soon as the modules are installed
 import os as _os
-PROP_MODULES += ["WV.Props." + _m for _m in ("PyIR_Client", "PyIR_Client_Boss", "PyIR_Client_Glue")
+PROP_MODULES += ["WV.Props." + _m for _m in ("PyIR_Client", "PyIR_Client_Boss", "PyIR_Client_Glue", "PyIRRC_C14")
                  if _os.path.exists(_os.path.join(_os.path.dirname(_os.path.abspath(__file__)), "..", "..", "lean", "WV",
                                                   "Props", _m + ".lean"))]
+# translation validation of the observer layer (observer.py, eventual.py, the wormhole façades) against WV.Observer
+# (tools/extract.py::extract_pyir_obs -> WV/Gen/PyIRObs.lean; agents/deepObs_integration.md): part of the check as soon
+# as the module is installed
+if _os.path.exists(_os.path.join(_os.path.dirname(_os.path.abspath(__file__)), "..", "..", "lean", "WV", "Props",
+                                 "PyIRObs_C18.lean")):
+    PROP_MODULES.append("WV.Props.PyIRObs_C18")
 NATIVE_DECIDE_MODULES = ["WV.Proofs.ClientCert"]
 TRUSTED = c14.TRUSTED + ["Deferred chaining of Twisted (observers' callbacks run through the real EventualQueue)"]
 RULE = ("(a) guided random schedules as for C14 with per-step comparison against the Lean model; (b) two-client runs "
